@@ -2551,7 +2551,9 @@ func rulePXImportBlock(c *Ctx) []Obligation {
 	fn := fname(f)
 	imp := "recv." + c.ff("imports")
 	nameF, aliasF := c.ff("defname"), c.ff("defalias")
-	paths, trunc := c.Paths(f, PXConfig{SkipErrEdges: true, Opaque: c.stdOpaque(), MaxVisits: 4, MaxPaths: 60000})
+	// the block is written to a writer parameter, or assembled in a local buffer and returned as text
+	textForm := c.writerParam(f) == nil
+	paths, trunc := c.Paths(f, PXConfig{SkipErrEdges: true, Opaque: c.stdOpaque(), MaxVisits: 4, MaxPaths: 60000, LocalWrites: textForm})
 	if trunc || len(paths) == 0 {
 		o.undecided(fn, "path enumeration", f.Pos(), "%d paths, truncated %v", len(paths), trunc)
 		return o.list
@@ -2562,6 +2564,29 @@ func rulePXImportBlock(c *Ctx) []Obligation {
 		if p.End == "panic" {
 			t.note("printing the import block does not panic", false, "path %s panics", traceOf(p))
 			continue
+		}
+		W := "p0"
+		if textForm {
+			// the one local buffer whose text is what the function returns
+			W = ""
+			for _, e := range p.Events {
+				if e.Kind == "write" && e.Writer.Op == "alloc" {
+					if txt, ok := p.Mem["o"+strconv.Itoa(e.Writer.Obj)+"$text"]; ok && len(p.Ret) > 0 && txt.String() == p.Ret[0].String() {
+						W = e.Writer.String()
+					}
+				}
+			}
+			if W == "" {
+				if len(p.Ret) > 0 {
+					if s0, isS := p.Ret[0].strVal(); isS && s0 == "" {
+						W = "<none>" // nothing assembled, the empty text returned
+					}
+				}
+			}
+			if W == "" {
+				t.note("the text returned is exactly what was assembled", false, "path %s returns %v", traceOf(p), p.Ret)
+				continue
+			}
 		}
 		if !successPath(p) {
 			continue
@@ -2592,7 +2617,7 @@ func rulePXImportBlock(c *Ctx) []Obligation {
 		_ = loopOrder
 		_ = seenIt
 		// output
-		out, other := pathOutput(p, "p0")
+		out, other := pathOutput(p, W)
 		if len(other) > 0 {
 			t.note("writes go to the writer parameter", false, "path %s writes to %v", traceOf(p), other)
 			continue
@@ -2601,7 +2626,7 @@ func rulePXImportBlock(c *Ctx) []Obligation {
 		var stream []string
 		for _, e := range p.Events {
 			switch {
-			case e.Kind == "write" && e.Writer.String() == "p0":
+			case e.Kind == "write" && e.Writer.String() == W:
 				stream = append(stream, segsText(e.Segs))
 			case (e.Kind == "call" || e.Kind == "invoke") && e.Name != "" && (strings.HasSuffix(e.Name, "."+c.renderName()) || e.Name == c.renderName()):
 				d := ""
@@ -2849,6 +2874,10 @@ func rulePXFileRender(c *Ctx) []Obligation {
 					}
 					got += "⟦" + c.commentSource(d) + "⟧"
 				}
+				continue
+			}
+			if sg.Val != nil && impAt >= 0 && p.Events[impAt].Res != nil && (sg.Val.String() == p.Events[impAt].Res.String() || sg.Val.String() == p.Events[impAt].Res.String()+"#0") {
+				got += "⟦IMPORTS⟧" // the import block handed back as text and written as such
 				continue
 			}
 			got += segToken(sg)
